@@ -24,7 +24,9 @@ static void body(int t){ for(char *p=prog[t]; *p; p++){
 		#define t2 (*pt2)
 		struct cds_wfcq_node *x; char buf[256]; int l=0; buf[0]=0; vs_quiet_begin(); cds_wfcq_init(&h2,&t2); vs_quiet_end();
 		vs_call(*p=='s'?"splice":"splicenb",0); enum cds_wfcq_ret r = *p=='s' ? __cds_wfcq_splice_blocking(&h2,&t2,&h,&tl) : __cds_wfcq_splice_nonblocking(&h2,&t2,&h,&tl);
-		if(r!=CDS_WFCQ_RET_WOULDBLOCK) __cds_wfcq_for_each_blocking(&h2,&t2,x){ l+=sprintf(buf+l,"%d,",(int)(x-n)); } vs_note("chain %s",buf); vs_ret(*p=='s'?"splice":"splicenb",(unsigned long)r); }
+		vs_ret(*p=='s'?"splice":"splicenb",(unsigned long)r);
+		/* the walk over the private queue is a separate (blocking) operation: it may wait for an enqueuer whose node was spliced with its link still pending */
+		vs_call("walk",0); if(r!=CDS_WFCQ_RET_WOULDBLOCK) __cds_wfcq_for_each_blocking(&h2,&t2,x){ l+=sprintf(buf+l,"%d,",(int)(x-n)); } vs_note("chain %s",buf); vs_ret("walk",0); }
 		#undef h2
 		#undef t2
 	else if(*p=='e'){ vs_call("empty",0); int r=cds_wfcq_empty(&h,&tl); vs_ret("empty",r); }
